@@ -110,7 +110,9 @@ CLAIMED = {
               "of the target position (values and attrs token), untouched dimensions keep theirs, no coordinate on the abandoned "
               "dimension survives, other dataset coordinates are attached iff they fit and keep_coords, nothing else is attached, the "
               "name is kept, and the values satisfy the same specification with and without input labels; calls over two axes (both orders, "
-              "padded and unpadded steps mixed) so that nothing leaks between the chained steps."),
+              "padded and unpadded steps mixed) so that nothing leaks between the chained steps; the same name / dims / coordinate "
+              "clauses for the five operations with metric_weighted. BOUNDED, not counted as proved: results for lazy input (real dask) "
+              "and names / dims of vector components operated across face links (7 two-face tables, real xarray)."),
         design_ref="DESIGN.md 7/C19",
         note=COMMON_NOTE + "Coordinates are abstracted to content tokens; the coordinate-propagation clause of apply_ufunc is assumed.",
         technique="contract-based deductive verification: symbolic execution of the real functions over a coordinate-token model",
